@@ -12,6 +12,15 @@ through the whole skip-list lattice on the real `save(skip=...)` / `load(skip=..
   types : every subset of size <= 2 of {ndarray, Tensor, int, str, float, list, dict, Inner} at save time
           x store; every (name, type) pair with the name given at save or at load time.
 
+  histories : every ordered pair (thorough: triple) of save calls from six skip configurations {none, names A, names B
+          (disjoint), types T1, types T2, names+types} on one object and on two objects, every call to its own target, every
+          target loaded afterwards (plain, and with a load-time skip) and compared with the object pruned by THAT call's
+          lists only; the same pairs through `Ptychography.save(skip=..., save_raw_data=...)` on a tiny real reconstruction
+          (checks/_ptycho.build), read back with load() and `Ptychography.from_file(..., dset=...)`. Module-level lists /
+          dicts / sets, class-level ones and mutable default arguments of serialize.py and ptychography.py are found by
+          introspection, snapshotted before anything is saved, restored in place before every work item and compared after
+          every history ("a save must not depend on earlier saves"; a changed mutable is a failure class of its own).
+
 Oracle: a fresh in-memory build of the graph with the named attributes (and the attributes that are
 instances of a listed type) deleted at every level reached through attributes, compared with the C01
 structural-equality relation — survivors are compared for equality, not just presence; dict keys and
@@ -34,16 +43,22 @@ CLAIM = (
     "type list of size <= 2 over 8 types is skipped at save time; each loaded object is compared with the in-memory graph from "
     "which exactly those attributes were deleted at every attribute-nested level, using the C01 structural-equality relation, so "
     "survivors are checked for equality and nothing else may disappear or appear; recorded lists are honoured by a plain load and "
-    "load-time skipping gives exactly the save-time result. Exploration is the right level: the property is a statement over a "
+    "load-time skipping gives exactly the save-time result. Every ordered pair (thorough: triple) of save calls over six skip "
+    "configurations, on one object and on two, through AutoSerialize.save and through Ptychography.save (with and without raw data) "
+    "on a tiny real reconstruction, is executed in one process with every target judged by its own call's lists only, and the "
+    "module-level mutable state of serialize.py and ptychography.py must be unchanged after every history. Exploration is the right level: the property is a statement over a "
     "finite lattice of skip lists, each point decided exactly by one execution."
 )
 NOTE = (
     "Trusted: the pruning oracle (12 lines) and the equality relation of checks/_serial.py; one graph shape (the quantifier's "
     "'all object graphs' is covered by C01's grammar without skip lists); nested AutoSerialize objects are reached through "
-    "attributes only, as the quantifier says; type skipping is exercised at save time only, as the statement says."
+    "attributes only, as the quantifier says; type skipping is exercised at save time only, as the statement says. Ptychography "
+    "objects: nested models and datasets are torch modules, which the serializer stores whole, so the oracle prunes the top level only and "
+    "skip names are chosen among top-level-only attributes; the _dataset_metadata written by Ptychography.save is checked for presence, not content."
 )
 RULE = (
-    "Full enumeration of name subsets x when x store and of type subsets x store (plus name x type pairs) on one 3-level graph. "
+    "Full enumeration of name subsets x when x store and of type subsets x store (plus name x type pairs) on one 3-level graph, plus every "
+    "ordered pair (thorough: triple) of save calls over six skip configurations x {one object, two objects} through AutoSerialize.save and Ptychography.save. "
     "A point is non-trivial when its skip lists remove at least one attribute of the graph; distinct = distinct (skip lists, when, store)."
 )
 
@@ -56,7 +71,10 @@ def type_of(name):
     import numpy as np
     import torch
 
-    return {"ndarray": np.ndarray, "Tensor": torch.Tensor, "int": int, "str": str, "float": float, "list": list, "dict": dict, "Inner": S.Inner}[name]
+    return {
+        "ndarray": np.ndarray, "Tensor": torch.Tensor, "int": int, "str": str, "float": float, "list": list, "dict": dict,
+        "bool": bool, "Inner": S.Inner,
+    }[name]
 
 
 def graph_desc():
@@ -240,6 +258,7 @@ def run_types(case, seed, scratch):
 # ----------------------------------------------------------------------------- workers
 def eval_subset(item, seed=0, scratch="/tmp"):
     t = Tally()
+    state_restore()
     fails, points = run_subset(item, seed, scratch)
     for case, outcome, nontrivial in points:
         t.case(key=[case["when"], case["save"], case["load"], case["store"]], nontrivial=nontrivial, outcome=outcome)
@@ -254,6 +273,7 @@ def eval_subset(item, seed=0, scratch="/tmp"):
 def eval_pair(item, seed=0, scratch="/tmp"):
     """Thorough tier: one disjoint (save, load) pair of name sets."""
     t = Tally()
+    state_restore()
     case = {"family": "names", "when": item["when"], "save": item["save"], "load": item["load"], "store": item["store"], "form": "list", "seed": seed}
     f, outcome, nontrivial, _ = run_names(case, seed, scratch)
     t.case(key=[case["when"], case["save"], case["load"], case["store"]], nontrivial=nontrivial, outcome=outcome)
@@ -265,6 +285,7 @@ def eval_pair(item, seed=0, scratch="/tmp"):
 
 def eval_types(item, seed=0, scratch="/tmp"):
     t = Tally()
+    state_restore()
     case = dict(item, family="types", seed=seed)
     f, outcome, nontrivial = run_types(case, seed, scratch)
     t.case(key=["types", item["types"], item.get("name"), item.get("name_when"), item["store"]], nontrivial=nontrivial, outcome=outcome)
@@ -273,6 +294,284 @@ def eval_types(item, seed=0, scratch="/tmp"):
         t.fail(cls, case, msg)
     if len(item["types"]) == 2 and not item.get("name"):
         t.sample({"family": "types", "types": item["types"], "store": item["store"], "observed": "equal to the in-memory graph without instances of these types" if not f else f"{len(f)} failure(s)"}, cap=1)
+    return t
+
+
+# ----------------------------------------------------------------------------- module-level mutable state
+# A save must not depend on earlier saves. What can carry a dependency inside one process is mutable state that
+# outlives a call: module-level lists/dicts/sets, class-level ones, and mutable default arguments, in the two
+# modules the property is anchored in. They are found by introspection, snapshotted once before anything is
+# saved, restored IN PLACE before every work item (so that no case depends on what the worker ran before) and
+# compared after every history (a change is a failure class of its own).
+STATE_MODULES = ("quantem.core.io.serialize", "quantem.diffractive_imaging.ptychography")
+_SNAP = None
+
+
+def _mutable_slots():
+    import importlib
+    import inspect
+
+    out = []
+    for mn in STATE_MODULES:
+        m = importlib.import_module(mn)
+        short = mn.rsplit(".", 1)[1]
+        for k, v in sorted(vars(m).items()):
+            if k.startswith("__"):
+                continue
+            if isinstance(v, (list, dict, set)):
+                out.append((f"{short}.{k}", v))
+            if inspect.isclass(v) and v.__module__ == mn:
+                for ck, cv in sorted(vars(v).items(), key=lambda kv: kv[0]):
+                    f = cv.__func__ if isinstance(cv, (classmethod, staticmethod)) else cv
+                    if inspect.isfunction(f):
+                        dfl = list(f.__defaults__ or ()) + [x for _, x in sorted((f.__kwdefaults__ or {}).items())]
+                        for i, d in enumerate(dfl):
+                            if isinstance(d, (list, dict, set)):
+                                out.append((f"{short}.{k}.{ck}:default#{i}", d))
+                    elif isinstance(cv, (list, dict, set)) and not ck.startswith("__"):
+                        out.append((f"{short}.{k}.{ck}", cv))
+            elif inspect.isfunction(v) and v.__module__ == mn:
+                dfl = list(v.__defaults__ or ()) + [x for _, x in sorted((v.__kwdefaults__ or {}).items())]
+                for i, d in enumerate(dfl):
+                    if isinstance(d, (list, dict, set)):
+                        out.append((f"{short}.{k}:default#{i}", d))
+    return out
+
+
+def _copy1(v):
+    return dict(v) if isinstance(v, dict) else set(v) if isinstance(v, set) else list(v)
+
+
+def _same(a, b):
+    if type(a) is not type(b) or len(a) != len(b):
+        return False
+
+    def eq(x, y):
+        if x is y:
+            return True
+        try:
+            return type(x) is type(y) and bool(x == y)
+        except Exception:
+            return False
+
+    if isinstance(a, dict):
+        return all(k in b and eq(v, b[k]) for k, v in a.items())
+    if isinstance(a, set):
+        return all(x in b for x in a)
+    return all(eq(x, y) for x, y in zip(a, b))
+
+
+def state_snapshot():
+    global _SNAP
+    _SNAP = [(label, obj, _copy1(obj)) for label, obj in _mutable_slots()]
+    return _SNAP
+
+
+def state_restore():
+    """In place, so that every reference the library holds sees the restored content."""
+    if _SNAP is None:
+        state_snapshot()
+        return
+    for _, obj, snap in _SNAP:
+        if _same(obj, snap):
+            continue
+        if isinstance(obj, list):
+            obj[:] = snap
+        else:
+            obj.clear()
+            obj.update(snap)
+
+
+def state_changes():
+    return [(label, repr(snap)[:200], repr(obj)[:300]) for label, obj, snap in (_SNAP or []) if not _same(obj, snap)]
+
+
+# ----------------------------------------------------------------------------- histories of save calls
+# Every other part of this check makes one save per case. Here several save calls follow each other in one
+# process, on the same object or on different objects, each with its own skip configuration and its own
+# target; every target is then loaded and must equal the in-memory graph pruned by THAT call's lists only.
+A_CONFIGS = {
+    "none": ([], []), "namesA": (["a", "t"], []), "namesB": (["arr", "q"], []), "typesT1": ([], ["ndarray"]),
+    "typesT2": ([], ["str", "Tensor"]), "names+types": (["p"], ["int"]),
+}
+A_LOAD_SKIP = ["lst", "zzz"]
+# names are real top-level attributes of a Ptychography object whose absence load()/from_file tolerate
+P_CONFIGS = {
+    "none": ([], []), "namesA": (["_iter_losses", "_snapshots"], []), "namesB": (["_iter_lrs", "_val_mode"], []),
+    "typesT1": ([], ["list"]), "typesT2": ([], ["dict"]), "names+types": (["_val_ratio"], ["bool"]),
+}
+P_LOAD_SKIP = ["_batch_size"]
+P_CFG = {"roi": [8, 8], "scan": [2, 2], "pad": [8, 8]}
+RAW_NAMES = ("_dset", "dset")
+
+
+def build_ptycho(seed, k):
+    import numpy as np
+
+    from checks import _ptycho
+
+    with S.quiet():
+        P = _ptycho.build(dict(P_CFG), np.random.default_rng([int(seed), 14, int(k)]))
+    if P.ptycho is None:
+        raise Broken("the tiny ptychography problem could not be built")
+    return P
+
+
+def prune_ptycho(obj, names, types):
+    """Oracle for Ptychography objects: nested models and datasets are torch modules, which the serializer
+    stores whole (skip lists are not applied inside them), so pruning descends only into nested objects that
+    are AutoSerialize and not torch modules."""
+    import torch
+
+    removed = 0
+    for k in list(vars(obj)):
+        v = vars(obj)[k]
+        if k in names or (types and isinstance(v, types)):
+            delattr(obj, k)
+            removed += 1
+        elif isinstance(v, S.AutoSerialize) and not isinstance(v, torch.nn.Module):
+            removed += prune_ptycho(v, names, types)
+    return removed
+
+
+def _hist_cls(rec, relation, part, call):
+    c = _cls(rec, relation, "save")
+    c.pop("when", None)
+    c["part"] = part
+    c["call"] = "first" if call == 0 else "later"
+    return c
+
+
+def run_save_history(item, seed, scratch):
+    """One history of save calls. item: part, configs [names of configurations], objects same|different,
+    stores [...], raw [...] (ptychography only). Returns (fails, outcomes, nontrivial)."""
+    part, cfgs, stores = item["part"], item["configs"], item["stores"]
+    table = A_CONFIGS if part == "autoserialize" else P_CONFIGS
+    raws = item.get("raw") or [False] * len(cfgs)
+    label = f"{part} history " + " ; ".join(
+        f"save#{i + 1}(obj{0 if item['objects'] == 'same' else i % 2}, store={stores[i]}, skip names={table[c][0]} types={table[c][1]}" + (f", save_raw_data={raws[i]}" if part == "ptychography" else "") + ")"
+        for i, c in enumerate(cfgs)
+    )
+    fails, outcomes = [], []
+    state_restore()
+    nobj = 1 if item["objects"] == "same" else 2
+    if part == "autoserialize":
+        live = [S.build(GRAPH, seed + k) for k in range(nobj)]
+    else:
+        live = [build_ptycho(seed, k).ptycho for k in range(nobj)]
+    removed_any = False
+    with S.Workdir(scratch, "C14") as wd:
+        targets = []
+        for i, c in enumerate(cfgs):
+            names, types = table[c]
+            k = 0 if nobj == 1 else i % 2
+            p = S.target(wd, stores[i], f"h{i}")
+            skip = _skip_arg(names, types)
+            try:
+                with S.quiet():
+                    if part == "autoserialize":
+                        live[k].save(p, store=stores[i], skip=skip) if skip else live[k].save(p, store=stores[i])
+                    else:
+                        live[k].save(p, store=stores[i], skip=skip, save_raw_data=raws[i])
+            except Exception as e:
+                fails.append(({"relation": "history:save_independent_of_earlier_saves", "part": part, "symptom": "save_raises", "exc": type(e).__name__, "call": "first" if i == 0 else "later"}, f"{label}: save#{i + 1} raised {type(e).__name__}: {str(e)[:200]}"))
+                return fails, [["save_raises"]], False
+            targets.append((i, k, p, names, types, raws[i]))
+        # ---- every target is loaded after ALL saves and judged by its own call's lists
+        for i, k, p, names, types, raw in targets:
+            loads = [("plain load", None, [])]
+            if i == len(targets) - 1:
+                ls = A_LOAD_SKIP if part == "autoserialize" else P_LOAD_SKIP
+                loads.append((f"load(skip={ls})", ls, ls))
+            for how, lskip, lnames in loads:
+                st, y = _load(p, lskip)
+                if st != "ok":
+                    fails.append(({"relation": "history:save_independent_of_earlier_saves", "part": part, "symptom": st, "exc": type(y).__name__, "call": "first" if i == 0 else "later"}, f"{label}: {how} of target #{i + 1} raised {type(y).__name__}: {str(y)[:200]}"))
+                    continue
+                tt = tuple(type_of(t) for t in types)
+                if part == "autoserialize":
+                    exp = S.build(GRAPH, seed + k)
+                    removed_any = prune(exp, set(names) | set(lnames), tt) > 0 or removed_any
+                else:
+                    exp = build_ptycho(seed, k).ptycho
+                    nm = set(names) | set(lnames) | (set() if raw else set(RAW_NAMES))
+                    removed_any = prune_ptycho(exp, nm, tt) > 0 or removed_any
+                    # the dataset description written next to a save without raw data: present iff not skipped itself
+                    want_meta = (not raw) and "_dataset_metadata" not in nm and not (dict in tt)
+                    has_meta = "_dataset_metadata" in vars(y)
+                    if want_meta != has_meta:
+                        fails.append(({"relation": "history:save_independent_of_earlier_saves", "part": part, "what": "attr_set", "kind": "object", "direction": "survivor_lost" if want_meta else "not_removed", "call": "first" if i == 0 else "later", "attr": "_dataset_metadata"}, f"{label}: {how} of target #{i + 1}: _dataset_metadata {'missing' if want_meta else 'present'}"))
+                    if has_meta:
+                        delattr(y, "_dataset_metadata")
+                d = S.diff(exp, y, slack=True, root="obj", limit=8)
+                if d:
+                    fails.append((_hist_cls(d[0], "history:save_independent_of_earlier_saves", part, i), f"{label}: {how} of target #{i + 1} differs from the in-memory object pruned by the lists of save#{i + 1} only: {S.fmt(d)}"))
+                if lskip is None:
+                    outcomes.append(sorted(vars(y)))
+        # ---- Ptychography.from_file with a dataset handed back, on the last target (name-only / no-skip calls)
+        if part == "ptychography" and not table[cfgs[-1]][1]:
+            i, k, p, names, types, raw = targets[-1]
+            from quantem.diffractive_imaging.ptychography import Ptychography
+
+            try:
+                with S.quiet():
+                    f = Ptychography.from_file(p, dset=build_ptycho(seed, k).dset)
+                got = set(vars(f)) - {"_dataset_metadata"}
+                exp = build_ptycho(seed, k).ptycho
+                prune_ptycho(exp, set(names) | set(RAW_NAMES), ())
+                want = set(vars(exp)) | {"_dset"}
+                if got != want:
+                    fails.append(({"relation": "history:from_file_attribute_names", "part": part, "what": "attr_set", "kind": "object", "direction": "survivor_lost" if want - got else "not_removed", "call": "later"}, f"{label}: Ptychography.from_file(target #{i + 1}, dset=...) has attributes {sorted(got)}, expected {sorted(want)} (missing {sorted(want - got)}, extra {sorted(got - want)})"))
+            except Exception as e:
+                fails.append(({"relation": "history:from_file_attribute_names", "part": part, "symptom": "from_file_raises", "exc": type(e).__name__, "call": "later"}, f"{label}: Ptychography.from_file(target #{i + 1}, dset=...) raised {type(e).__name__}: {str(e)[:200]}"))
+    # ---- nothing that outlives a call may have changed
+    for lab, before, after in state_changes():
+        fails.append(({"relation": "history:module_level_state_unchanged", "part": part, "where": lab}, f"{label}: module-level mutable {lab} changed during the history: before {before}, after {after}"))
+    state_restore()
+    return fails, outcomes, removed_any
+
+
+def enumerate_save_histories(quick):
+    import itertools
+
+    items = []
+    n = 2 if quick else 3
+    keys = list(A_CONFIGS)
+    for cfgs in itertools.product(keys, repeat=n):
+        if quick:  # both stores in both positions, on one object and on two
+            combos = [("same", ["zip", "dir"]), ("different", ["dir", "zip"])]
+        else:
+            combos = [(o, [st] * n) for o in ("same", "different") for st in STORES] + [("different", ["zip", "dir", "zip"]), ("same", ["dir", "zip", "dir"])]
+        for objects, stores in combos:
+            items.append({"part": "autoserialize", "configs": list(cfgs), "objects": objects, "stores": stores})
+    pkeys = list(P_CONFIGS)
+    for cfgs in itertools.product(pkeys, repeat=2):
+        # quick: every ordered pair on one object without raw data; two objects when the first call is namesA / typesT1;
+        # the other three save_raw_data combinations for {namesA, typesT1} x {none, namesB}. thorough: the full product.
+        sub = cfgs[0] in ("namesA", "typesT1") and cfgs[1] in ("none", "namesB")
+        raw_sets = [[False, False]]
+        if not quick or sub:
+            raw_sets += [[False, True], [True, False], [True, True]]
+        for raw in raw_sets:
+            items.append({"part": "ptychography", "configs": list(cfgs), "raw": raw, "objects": "same", "stores": ["zip", "dir"]})
+            if not quick or (raw == [False, False] and cfgs[0] in ("namesA", "typesT1")):
+                items.append({"part": "ptychography", "configs": list(cfgs), "raw": raw, "objects": "different", "stores": ["dir", "zip"]})
+    if not quick:  # triples through Ptychography.save for the name configurations, raw data never saved
+        for cfgs in itertools.product(("none", "namesA", "namesB", "typesT1"), repeat=3):
+            items.append({"part": "ptychography", "configs": list(cfgs), "raw": [False] * 3, "objects": "same", "stores": ["zip", "dir", "zip"]})
+    return items
+
+
+def eval_save_history(item, seed=0, scratch="/tmp"):
+    t = Tally()
+    fails, outcomes, nontrivial = run_save_history(item, seed, scratch)
+    t.case(key=["save_history", item], nontrivial=nontrivial, outcome=outcomes)
+    t.extra["save_histories_" + item["part"]] += 1
+    t.extra["save_history_saves"] += len(item["configs"])
+    for cls, msg in fails:
+        t.fail(cls, dict(item, family="save_history", seed=seed), msg)
+    if item["configs"][0] != "none" and item["configs"][-1] == "none":
+        t.sample({"family": "save_history", "part": item["part"], "configs": item["configs"], "objects": item["objects"], "stores": item["stores"], "raw": item.get("raw"), "observed": "every target equals the object pruned by its own call's lists; module-level state unchanged" if not fails else f"{len(fails)} failure(s)"}, cap=1)
     return t
 
 
@@ -292,6 +591,12 @@ def run(ctx):
         "dict keys and container elements are not attributes: a key equal to a skipped name must survive",
         "survivors are compared with the C01 relation (NumPy scalars / all-numeric sequences by numeric value against the input; exactly between two loaded graphs)",
     )
+
+    import importlib
+
+    for mn in STATE_MODULES:
+        importlib.import_module(mn)
+    slots = [lab for lab, _, _ in state_snapshot()]  # before anything is saved; worker processes inherit it
 
     def once():
         f, pts = run_subset({"subset": ["a", "inner", "zzz"], "store": "zip"}, ctx.seed, ctx.scratch)
@@ -332,6 +637,8 @@ def run(ctx):
                 for st in STORES:
                     titems.append({"types": [tn], "name": n, "name_when": nw, "store": st})
     m2 = ctx.pmap(eval_types, titems, chunk=4, label="type lists", seed=ctx.seed, scratch=ctx.scratch)
+    hitems = enumerate_save_histories(ctx.quick)
+    m3 = ctx.pmap(eval_save_history, hitems, chunk=2, label="save histories", seed=ctx.seed, scratch=ctx.scratch)
     ctx.coverage.update(
         alphabet={
             "name_universe": UNIVERSE, "depths_at_which_each_name_occurs": removed, "types": TYPE_NAMES, "stores": list(STORES),
@@ -339,11 +646,22 @@ def run(ctx):
             "graph": S.show(GRAPH),
         },
         bounds={"name_subsets": len(subs), "type_subsets_max_size": 2, "type_subsets": len(tsubs), "name_x_type_pairs": len(TYPE_NAMES) * len(UNIVERSE) * 2, "disjoint_pairs": npairs},
-        relations=["skip_names (when=save: the recorded list is honoured by a plain load)", "load_time_equals_save_time", "skip_types"],
+        relations=["skip_names (when=save: the recorded list is honoured by a plain load)", "load_time_equals_save_time", "skip_types",
+                   "history:save_independent_of_earlier_saves", "history:from_file_attribute_names", "history:module_level_state_unchanged"],
+        save_histories={
+            "length": 2 if ctx.quick else 3, "autoserialize_configurations": {k: {"names": v[0], "types": v[1]} for k, v in A_CONFIGS.items()},
+            "ptychography_configurations": {k: {"names": v[0], "types": v[1]} for k, v in P_CONFIGS.items()}, "ptychography_problem": P_CFG,
+            "histories": len(hitems), "autoserialize": int(m3.extra["save_histories_autoserialize"]), "ptychography": int(m3.extra["save_histories_ptychography"]),
+            "saves": int(m3.extra["save_history_saves"]), "module_level_mutables_watched": slots,
+        },
         exhaustive=True,
     )
     if int(m1.extra["name_points"]) < len(items) * 3 or int(m2.extra["type_points"]) != len(titems):
         raise Broken(f"enumeration incomplete: {m1.extra['name_points']} name points, {m2.extra['type_points']} type points")
+    if int(m3.extra["save_histories_autoserialize"]) + int(m3.extra["save_histories_ptychography"]) != len(hitems) or len(m3.outcomes) < 10:
+        raise Broken(f"save-history enumeration degenerate: {dict(m3.extra)}, {len(m3.outcomes)} outcomes for {len(hitems)} histories")
+    if not any("default#" in x for x in slots):
+        ctx.seam_missing.append("no mutable default argument found in the watched modules (introspection of function defaults)")
     if len(m1.outcomes) < 20 or len(m2.outcomes) < 10:
         raise Broken(f"too few distinct outcomes: names {len(m1.outcomes)}, types {len(m2.outcomes)}")
 
@@ -351,6 +669,19 @@ def run(ctx):
 def replay(ctx, case):
     seed = case.get("seed", ctx.seed)
     print(f"  graph: {S.show(GRAPH)}")
+    if case["family"] == "save_history":
+        import importlib
+
+        for mn in STATE_MODULES:
+            importlib.import_module(mn)
+        state_snapshot()
+        fails, outcomes, _ = run_save_history(case, seed, ctx.scratch)
+        for cls, msg in fails:
+            ctx.fail(cls, case, msg)
+        print(f"  history: {case['part']} configs={case['configs']} objects={case['objects']} stores={case['stores']} raw={case.get('raw')}")
+        print(f"  attribute names of the plain loads, per target: {outcomes}")
+        print(f"  expected: every target equals the object pruned by its own call's lists, module-level state unchanged; observed: {len(fails)} failure(s)")
+        return
     if case["family"] == "names":
         f, outcome, _, got = run_names(case, seed, ctx.scratch)
         fails = [(c, m) for c, m in f]
